@@ -116,9 +116,11 @@ fn map_many<K: Elem, V: Elem, const N: usize>(c: &mut Ctx, d: &mut MapDrv<K, V>,
 }
 
 fn map_case<K: Elem, V: Elem>(c: &mut Ctx, rng: &mut Rng) {
-    let recipe = *rng.pick(&[Recipe::Small, Recipe::Full, Recipe::Saturated, Recipe::SaturatedRandom, Recipe::Tombstoned, Recipe::History, Recipe::Fresh]);
+    let recipe = *rng.pick(&[Recipe::Small, Recipe::Full, Recipe::Saturated, Recipe::SaturatedRandom, Recipe::Layout, Recipe::Tombstoned, Recipe::History, Recipe::Fresh]);
     // colliding plans make position- and tag-colliding keys the normal case
-    let plan = if rng.chance(1, 2) { *rng.pick(&[Plan::Zero, Plan::SamePos, Plan::SameTag, Plan::Palette(2, 2), Plan::Palette(1, 3), Plan::IdentOneTag, Plan::Tail]) } else { pick_plan(rng) };
+    let plan = if matches!(recipe, Recipe::Layout) {
+        Plan::Ident
+    } else if rng.chance(1, 2) { *rng.pick(&[Plan::Zero, Plan::SamePos, Plan::SameTag, Plan::Palette(2, 2), Plan::Palette(1, 3), Plan::IdentOneTag, Plan::Tail]) } else { pick_plan(rng) };
     let spec = StateSpec { plan, salt: rng.next(), recipe, seed: rng.next(), size: rng.below(1000) as u32 };
     let mut d = build_state::<K, V>(&spec, c);
     d.universe = ((d.model.len() as u32) + 4).min(K::ID_SPACE);
